@@ -175,7 +175,7 @@ func genOptConf1(rng *rand.Rand, v6 bool) (string, []string) {
 		}
 		return "autoconfigure", []string{[]string{"0", "1", "DoNotAutoConfigure", "AutoConfigure"}[rng.Intn(4)]}
 	case 9:
-		u := []string{"tftp://10.0.0.5/pxelinux.0", "tftp://boot.example.org/pxe/file.efi", "http://10.0.0.5/ipxe.efi", "https://boot.example.org:8443/a/b", "ftp://10.0.0.9/f", "tftp://h/p?params=x", "http://10.0.0.5/boot.php?mac=${mac}&uuid=${uuid}", "http://10.0.0.5/${net0/mac}/boot.ipxe", "tftp://10.0.0.5", "tftp://boot.example.org/"}[rng.Intn(10)]
+		u := []string{"tftp://10.0.0.5/pxelinux.0", "tftp://boot.example.org/pxe/file.efi", "http://10.0.0.5/ipxe.efi", "https://boot.example.org:8443/a/b", "ftp://10.0.0.9/f", "tftp://h/p?params=x", "http://10.0.0.5/boot.php?mac=${mac}&uuid=${uuid}", "http://10.0.0.5/${net0/mac}/boot.ipxe", "tftp://10.0.0.5", "tftp://boot.example.org/", "HTTP://boot.example.org/grubx64.efi", "Https://10.0.0.5/x", "TFTP://10.0.0.5/pxelinux.0"}[rng.Intn(13)]
 		return "nbp", []string{u}
 	default:
 		return "sleep", []string{fmt.Sprintf("%dms", 1+rng.Intn(15))}
